@@ -569,12 +569,13 @@ Proof. exact open_ro_refines_recover. Qed.
 Print Assumptions C04_open_ro_refines_recover.
 
 (* ... and what that DB ANSWERS.  tables_answer is the statement of C01 / C06 / C13 about the tables the manifest
-   prefix names: a well-formed byte-level layout (wf_bstate), nothing in it newer than the recorded sequence
-   number, answering at it like the plain map of the batches those tables make durable (flushes and compactions
-   keep that: C01_get_is_map_bytes), and no acceptable journal batch starting AT the recorded number.  Then the
-   state Open returns is well-formed and DB.Get computed on its BYTES (db_get_bytes) at db.seq returns, for every
-   key, what the plain map driven by L returns — L a list of batches with acked ⊆ L ⊆ issued, in issue order,
-   every batch whole (cmap applies all records of a batch). *)
+   prefix names: a well-formed byte-level layout (wf_bstate) that answers like the plain map of the batches those
+   tables make durable (flushes and compactions keep that: C01_get_is_map_bytes), read at a sequence number s0 that
+   nothing in the tables exceeds and below which every journal batch the sequence rule accepts starts (s0 = the
+   recorded number after a flush at run time; one less when a recovery wrote the manifest, which records last + 1).
+   Then the state Open returns is well-formed and DB.Get computed on its BYTES (db_get_bytes) at db.seq returns,
+   for every key, what the plain map driven by L returns — L a list of batches with acked ⊆ L ⊆ issued, in issue
+   order, every batch whole (cmap applies all records of a batch). *)
 Theorem C04_open_ro_end_to_end :
   forall jcrc jp, jparams_ok jp -> forall rp, rparams_ok rp -> forall kp, kparams_ok kp ->
   (keyTypeSeek kp <= keyTypeVal kp)%N -> forall mp, MemDB.mparams_ok mp ->
